@@ -537,6 +537,16 @@ func (m *Machine) lock(v Value, write bool, what string) {
 		d.readers++
 	}
 	m.heldLocks = append(m.heldLocks, n)
+	// other goroutines may have run since we last held this mutex
+	if p, ok := v.(*Value); ok && !m.inHavoc {
+		for _, f := range m.interfere[p] {
+			m.inHavoc = true
+			saved := m.cur
+			m.call(m.cur, 0, f, nil)
+			m.cur = saved
+			m.inHavoc = false
+		}
+	}
 }
 
 func (m *Machine) tryLock(v Value) bool {
